@@ -174,7 +174,12 @@ type c04OpEnv struct {
 	JoinAny func(a, b interface{}) string
 	Cat     func(a, b string) string
 	AddI    func(a, b int) int
+	PF      *func(x interface{}) bool
+	Pred    func(x interface{}) bool
+	NPred   c04Pred
 }
+
+type c04Pred func(x interface{}) bool
 
 func (e c04OpEnv) MJoin(a, b fmt.Stringer) string {
 	if a == nil || b == nil {
@@ -196,8 +201,13 @@ func c04OpBase() *c04OpEnv {
 		JoinAny: func(a, b interface{}) string { return fmt.Sprint(a, b) },
 		Cat:     func(a, b string) string { return a + b },
 		AddI:    func(a, b int) int { return a + b },
+		PF:      &c04True,
+		Pred:    c04True,
+		NPred:   c04Pred(c04True),
 	}
 }
+
+var c04True = func(x interface{}) bool { return true }
 
 // ---------------------------------------------------------------- options
 type c04Opts struct {
@@ -251,7 +261,10 @@ func (r *c04Replacer) Exit(n *ast.Node) {
 
 var c04TemplateKinds = []string{"Nil", "Identifier", "Integer", "Float", "Bool", "String", "Constant", "ConstantNil", "ConstantSlice",
 	"ConstantMap", "ConstantFunc", "ConstantStruct", "Unary", "Binary", "Matches", "MatchesConst", "Property", "Index", "Slice", "Method", "Function",
-	"FunctionBoom", "BuiltinLen", "BuiltinAll", "Closure", "Pointer", "Conditional", "Array", "Map", "Pair"}
+	"FunctionBoom", "BuiltinLen", "BuiltinAll", "Closure", "Pointer", "Conditional", "Array", "Map", "Pair",
+	// a builtin whose closure slot holds an IDENTIFIER: function-typed members of the universe, and (environment of the
+	// operator campaign) a pointer to a function, a function of a declared type, a matching plain function
+	"BuiltinAllFn", "BuiltinMapId", "BuiltinFilterFast", "BuiltinPF", "BuiltinPred", "BuiltinNPred", "BuiltinCountPF", "BuiltinMapPF"}
 
 func c04Template(kind string) ast.Node {
 	i := func(v int) ast.Node { return &ast.IntegerNode{Value: v} }
@@ -305,6 +318,16 @@ func c04Template(kind string) ast.Node {
 		return &ast.BuiltinNode{Name: "len", Arguments: []ast.Node{id("AI")}}
 	case "BuiltinAll":
 		return &ast.BuiltinNode{Name: "all", Arguments: []ast.Node{id("AI"), &ast.ClosureNode{Node: &ast.BinaryNode{Operator: ">", Left: &ast.PointerNode{}, Right: i(0)}}}}
+	case "BuiltinAllFn":
+		return &ast.BuiltinNode{Name: "all", Arguments: []ast.Node{id("AI"), id("IsPos")}}
+	case "BuiltinMapId":
+		return &ast.BuiltinNode{Name: "map", Arguments: []ast.Node{id("AA"), id("Id")}}
+	case "BuiltinFilterFast":
+		return &ast.BuiltinNode{Name: "filter", Arguments: []ast.Node{id("AA"), id("Fast")}}
+	case "BuiltinPF", "BuiltinPred", "BuiltinNPred", "BuiltinCountPF", "BuiltinMapPF":
+		name := map[string]string{"BuiltinPF": "all", "BuiltinPred": "filter", "BuiltinNPred": "any", "BuiltinCountPF": "count", "BuiltinMapPF": "map"}[kind]
+		fn := map[string]string{"BuiltinPF": "PF", "BuiltinPred": "Pred", "BuiltinNPred": "NPred", "BuiltinCountPF": "PF", "BuiltinMapPF": "PF"}[kind]
+		return &ast.BuiltinNode{Name: name, Arguments: []ast.Node{&ast.ArrayNode{Nodes: []ast.Node{i(1), i(2)}}, id(fn)}}
 	case "Closure":
 		return &ast.ClosureNode{Node: &ast.BoolNode{Value: true}}
 	case "Pointer":
@@ -1342,6 +1365,10 @@ func runC04() {
 					As: []string{"", "", "", "bool"}[rng.Intn(4)]}
 				if k == 0 {
 					ops.Operator = lists[(i*3)%len(lists)]
+				}
+				if k == 2 && i%4 == 0 {
+					// a visitor puts a builtin with an identifier in its closure slot somewhere in the tree
+					ops.Patch = []string{fmt.Sprintf("replace:%s:%d", []string{"BuiltinPF", "BuiltinPred", "BuiltinNPred", "BuiltinCountPF", "BuiltinMapPF"}[(i/4)%5], rng.Intn(3))}
 				}
 				in := c04Input{Src: src, Opts: ops}
 				r := c04Guard(c04CompileCall(src, func() []expr.Option { return ops.build(base) }))
